@@ -11,7 +11,6 @@
 package ibb // import "mellium.im/xmpp/ibb"
 
 import (
-	"bytes"
 	"context"
 	"encoding/base64"
 	"encoding/xml"
@@ -213,7 +212,6 @@ func handlePayload(h *Handler, errResp errorResponder, p dataPayload, e xmlstrea
 		}))
 		return err
 	}
-	conn.seq++
 
 	conn.readLock.Lock()
 	defer conn.readLock.Unlock()
@@ -228,8 +226,10 @@ func handlePayload(h *Handler, errResp errorResponder, p dataPayload, e xmlstrea
 		}))
 		return err
 	}
-	b64Reader := base64.NewDecoder(base64.StdEncoding, bytes.NewReader(p.Data))
-	_, err := conn.readBuf.ReadFrom(b64Reader)
+	// Decode the whole packet before touching the read buffer so that a packet
+	// that is refused leaves no partial data behind.
+	decoded := make([]byte, dataLen)
+	n, err := base64.StdEncoding.Decode(decoded, p.Data)
 	if errors.As(err, &inputErr) {
 		_, err := xmlstream.Copy(e, errResp.Error(stanza.Error{
 			Type:      stanza.Cancel,
@@ -240,6 +240,12 @@ func handlePayload(h *Handler, errResp errorResponder, p dataPayload, e xmlstrea
 	if err != nil {
 		return err
 	}
+	_, err = conn.readBuf.Write(decoded[:n])
+	if err != nil {
+		return err
+	}
+	// The packet has been accepted: expect the next one.
+	conn.seq++
 
 	iq, ok := errResp.(stanza.IQ)
 	if e != nil && ok {
